@@ -18,13 +18,14 @@ ctest --test-dir $W/_build -j4 --timeout 900 >"$SRC/ctest.log" 2>&1; rc=$?
 tail -3 "$SRC/ctest.log" >>"$LOG"
 [ $rc -eq 0 ] || { echo "ctest FAILED with the patch" >>"$LOG"; exit 1; }
 DEMO=$(ls "$SRC"/demo.c "$SRC"/demo.cpp 2>/dev/null | head -1)
+INC=/tmp/confirm-$ID-inc; mkdir -p $INC; ln -sfn $C/private $INC/dispatch     # <dispatch/private.h>
 for T in patched clean; do
   [ $T = patched ] && B=$W/_build || B=$C/_build
-  clang-16 -O1 -fblocks -I$C -I$C/private -o /tmp/confirm-$ID-demo-$T "$DEMO" -L$B -ldispatch -lBlocksRuntime -lpthread -Wl,-rpath,$B >>"$LOG" 2>&1 || { echo "demo does not compile" >>"$LOG"; exit 1; }
+  clang-16 -O1 -fblocks -I$C -I$C/private -I$INC -o /tmp/confirm-$ID-demo-$T "$DEMO" -L$B -ldispatch -lBlocksRuntime -lpthread -Wl,-rpath,$B >>"$LOG" 2>&1 || { echo "demo does not compile" >>"$LOG"; exit 1; }
 done
 pf=0; cf=0
 for i in 1 2 3; do timeout 120 /tmp/confirm-$ID-demo-patched >/dev/null 2>&1 || pf=$((pf+1)); timeout 120 /tmp/confirm-$ID-demo-clean >/dev/null 2>&1 || cf=$((cf+1)); done
 echo "demo failed $pf/3 with the patch, $cf/3 without" >>"$LOG"
-rm -f /tmp/confirm-$ID-demo-*
+rm -rf /tmp/confirm-$ID-demo-* $INC
 [ $pf -ge 2 ] && [ $cf -eq 0 ] && { echo CONFIRMED >>"$LOG"; exit 0; }
 echo NOT-CONFIRMED >>"$LOG"; exit 1
